@@ -314,4 +314,17 @@ def epa3ClosestPoints (supp1 supp2 : V3 K → V3 K) (fuel : Nat) (simplex : List
     | _, _, _, _ => .panic
   | _ => .panic
 
+/-- `contact_support_map_support_map(pos12, g1, g2, prediction)` (dim3) from the point where `gjk::closest_points` has
+answered `Intersection` on `simplex` (see `contactFromEpa2`) -/
+def contactFromEpa3 (pos12 : Iso3 K) (supp1 supp2 : V3 K → V3 K) (fuel : Nat) (simplex : List (CSOPoint3 K)) :
+    Option (Option (Contact3 K)) :=
+  match epa3ClosestPoints supp1 supp2 fuel simplex with
+  | .some point1 point2_1 normal1 _ =>
+    let dist := (point2_1.sub point1).dot normal1
+    let point2 := pos12.invAct point2_1
+    let normal2 := pos12.invRot normal1.neg
+    some (some ⟨point1, point2, normal1, normal2, dist⟩)
+  | .none => some none
+  | _ => none
+
 end Model
